@@ -95,6 +95,22 @@ pub fn rec_bias(a: &Args, out: &mut Out) {
             let es: Vec<(u8, u8, char, i32)> = (0..nsat).map(|s| (s as u8, table[s % table.len()].0, table[s % table.len()].1, (s as i32) * 37 - 900)).collect();
             emit(&mut r, out, num, &es, "sat-count");
         }
+        // lists filled to the container capacity (1059: distinct (satellite, signal) keys, inside the precondition)
+        if num == 1059 {
+            for total in [384usize, 389, 390] {
+                let mut es: Vec<(u8, u8, char, i32)> = vec![];
+                let mut s = 0u8;
+                while es.len() < total {
+                    for g in table.iter() {
+                        if es.len() < total {
+                            es.push((s, g.0, g.1, (es.len() as i32 % 16000) - 8000));
+                        }
+                    }
+                    s += 1;
+                }
+                emit(&mut r, out, num, &es, "sat-count");
+            }
+        }
         // satellite ids at and beyond the field width
         for sat in [31u8, 32, 63, 64, 65, 200, 255] {
             emit(&mut r, out, num, &[(sat, table[0].0, table[0].1, 5)], "sat-id");
